@@ -148,7 +148,7 @@ def insertedIds (ops : List Op) : List Id :=
     | _ => none
 
 def c01step (st : DState) (op : String) (impl : String) : DState × String :=
-  let ws := (op.splitOn " ").filter (· ≠ "")
+  let ws := (op.splitOn " ").filter (fun w => w ≠ "" && !w.startsWith "cfg=")
   let implRoot := parseRootWords ((impl.splitOn " ").filter (· ≠ ""))
   match ws with
   | "case" :: _ => (st, "case" ++ sep ++ "na")
